@@ -4,7 +4,9 @@ compute (T5).  Only statements, main theorems, finding witnesses and non-vacuity
 here; helpers are in Lemmas/EncodeDecimal.lean and Lemmas/EncodeExpr.lean.
 
 Summary of what the model (bug-compatibly) does:
-* the two operands are looked up first (a symbol is replaced by its table entry), then their SIGNED values
+* the two operands are looked up first (a symbol is replaced by its table entry — an entry that is an EQU EXPRESSION
+  by the value of that expression, fix 0f280be: `resolve_symbol_equ_expression`, `C04_equ_expression_fixed`; a
+  definition cycle is an error, `C04_equ_expression_cycle`), then their SIGNED values
   (`NumericValue.signed()`: magnitude and `negative` flag; repair batch B2 — before, the magnitudes) are combined;
   division is `int(left / right)`, truncation towards zero;
 * the Python int is printed with `"{}".format` and re-read by the STRING constructor, so the range is
@@ -155,13 +157,13 @@ theorem resolve_symbol_left (x : Str) (mx : Mode) (a : Nat) (ha : Option Nat) (m
     (r : Value) (op : Char) (m : Mode) (ae : Bool) (t : SymTab)
     (hx : t.get? x = some (.numeric a ha ma na)) :
     (Value.expr (.symbol x mx) r op m ae).resolve t = (Value.expr (.numeric a ha ma na) r op m ae).resolve t :=
-  resolve_expr_symbol_left x mx _ r op m ae t hx rfl
+  resolve_expr_symbol_left x mx _ r op m ae t hx rfl rfl
 
 theorem resolve_symbol_right (x : Str) (mx : Mode) (b : Nat) (hb : Option Nat) (mb : Mode) (nb : Bool)
     (l : Value) (op : Char) (m : Mode) (ae : Bool) (t : SymTab)
     (hx : t.get? x = some (.numeric b hb mb nb)) :
     (Value.expr l (.symbol x mx) op m ae).resolve t = (Value.expr l (.numeric b hb mb nb) op m ae).resolve t :=
-  resolve_expr_symbol_right x mx _ l op m ae t hx rfl
+  resolve_expr_symbol_right x mx _ l op m ae t hx rfl rfl
 
 theorem resolve_undefined_left (x : Str) (mx : Mode) (r : Value) (op : Char) (m : Mode) (ae : Bool)
     (t : SymTab) (hx : t.get? x = none) :
@@ -461,7 +463,8 @@ theorem resolve_symbols_signed (x y : Str) (mx my : Mode) (a b : Nat) (ha hb : O
 theorem resolve_symbol_signed (x : Str) (mx : Mode) (a : Nat) (ha : Option Nat) (ma : Mode) (na : Bool) (t : SymTab)
     (hx : t.get? x = some (.numeric a ha ma na)) :
     (Value.symbol x mx).resolve t = numericOfInt (sInt a na) none .none := by
-  simp [Value.resolve, hx, Value.isAddress, Value.isNumeric, sInt]
+  rw [resolve_symbol_of_get hx rfl]
+  simp [symPost, Value.isAddress, Value.isNumeric, sInt]
 
 /-- `(−5) + 3 = −2`, `(−5) * (−3) = 15`, `(−7) / 2 = −3` (truncation towards zero), `(−5) − (−3) = −2` -/
 example : modelArith '+' (sInt 5 true) (sInt 3 false) = some (-2) ∧ modelArith '*' (sInt 5 true) (sInt 3 true) = some 15 ∧
@@ -623,13 +626,158 @@ theorem C04_finding_negative_result_loses_sign_fixed :
     asmOne "LDA" "#1-2" = some (2, [0x86, 0xFF]) ∧ asmOne "LDX" "#1-2" = some (3, [0x8E, 0xFF, 0xFF]) := by
   decide +kernel
 
-/-- STILL A FINDING (C4): a symbol defined by `EQU` of an EXPRESSION has no value when it is used -/
-theorem C04_finding_equ_expression (fs : Files) :
-    assemble fs ["X EQU 1+2\n".toList, " LDA #X\n".toList] = .diag := progDiag_sound (by decide +kernel) fs
-
 /-- whole-program witness: the image of an INCLUDE-free program -/
 theorem image_of (lines : List Str) (img : Bytes) (h : progCheck lines (fun a => a.image == some img) = true)
     (fs : Files) : ∃ a, assemble fs lines = .ok a ∧ a.image = some img := progImage_sound h fs
+
+/-! ### an EQU defined by an expression (fixes 0f280be, d7356d4; finding C4 closed)
+
+`get_symbol` evaluates the expression where the symbol is used (`resolveF`, one unit of fuel per level), and the pass
+`evalSyms` replaces the table entry by its value before the table is listed. -/
+
+/-- REPAIRED (batch 4, fix 0f280be; formerly `C04_finding_equ_expression`: a diagnostic, "a symbol defined by `EQU` of
+an EXPRESSION has no value when it is used"): `X EQU 1+2`, `LDA #X` is `86 03` -/
+theorem C04_finding_equ_expression_fixed (fs : Files) :
+    ∃ a, assemble fs ["X EQU 1+2\n".toList, " LDA #X\n".toList] = .ok a ∧ a.image = some [0x86, 0x03] :=
+  image_of _ _ (by decide +kernel) fs
+
+/-- the same with a 16-bit register: `R EQU 1+2`, `LDX #R` is `8E 00 03` -/
+theorem C04_equ_expression_fixed (fs : Files) :
+    ∃ a, assemble fs ["R EQU 1+2\n".toList, " LDX #R\n".toList] = .ok a ∧ a.image = some [0x8E, 0x00, 0x03] :=
+  image_of _ _ (by decide +kernel) fs
+
+/-- ... and the symbol table lists the VALUE of the expression (`evalSyms`) -/
+theorem C04_equ_expression_symtab (fs : Files) :
+    ∃ a, assemble fs ["R EQU 1+2\n".toList, " LDX #R\n".toList] = .ok a ∧
+      symtabLines a.symtab = some ["$03   R".toList] := by
+  obtain ⟨a, ha, hc⟩ := progCheck_sound (check := fun a => symtabLines a.symtab == some ["$03   R".toList])
+    (lines := ["R EQU 1+2\n".toList, " LDX #R\n".toList]) (by decide +kernel) fs
+  exact ⟨a, ha, by simpa using hc⟩
+
+/-- **an EQU defined by an expression of constants, used as a plain symbol**: the symbol resolves to the arithmetic
+value of the expression (in −32768..65535), exactly as if the EQU had been written with that number -/
+theorem resolve_symbol_equ_expression (x : Str) (mx : Mode) (a b : Nat) (ha hb : Option Nat) (ma mb : Mode)
+    (na nb : Bool) (op : Char) (m : Mode) (t : SymTab)
+    (hx : t.get? x = some (.expr (.numeric a ha ma na) (.numeric b hb mb nb) op m false))
+    {z : Int} (hz : modelArith op (sInt a na) (sInt b nb) = some z) (h1 : -32768 ≤ z) (h2 : z ≤ 65535) :
+    (Value.symbol x mx).resolve t = numericOfInt z none .none := by
+  rw [resolve_symbol_of_expr hx rfl]
+  cases t with
+  | nil => cases hx
+  | cons e t' =>
+    rw [List.length_cons, resolveF_expr_numeric, hz]
+    simp only [numResult_spec, h1, h2, and_self, if_true]
+    by_cases hneg : z < 0
+    · have : (-(z.natAbs : Int)) = z := by omega
+      simp [hneg, negNum, symPost, Value.isAddress, Value.isNumeric, this]
+    · have : ((z.natAbs : Nat) : Int) = z := by omega
+      simp [hneg, posNum, symPost, Value.isAddress, Value.isNumeric, this]
+
+/-- an EQU expression that cannot be evaluated (overflow, division by zero) makes the symbol an error where it is used -/
+theorem resolve_symbol_equ_expression_error (x : Str) (mx : Mode) (a b : Nat) (ha hb : Option Nat) (ma mb : Mode)
+    (na nb : Bool) (op : Char) (m : Mode) (t : SymTab)
+    (hx : t.get? x = some (.expr (.numeric a ha ma na) (.numeric b hb mb nb) op m false))
+    (hz : ∀ z, modelArith op (sInt a na) (sInt b nb) = some z → ¬ (-32768 ≤ z ∧ z ≤ 65535)) :
+    (Value.symbol x mx).resolve t = .error .other := by
+  rw [resolve_symbol_of_expr hx rfl]
+  cases t with
+  | nil => cases hx
+  | cons e t' =>
+    rw [List.length_cons, resolveF_expr_numeric]
+    cases hm : modelArith op (sInt a na) (sInt b nb) with
+    | none => rfl
+    | some z => simp only [numResult_spec, hz z hm, if_false]
+
+/-- **the same inside an expression**: an operand that names an EQU expression of constants stands for its value -/
+theorem resolve_expr_equ_expression_left (x : Str) (mx : Mode) (a b : Nat) (ha hb : Option Nat) (ma mb : Mode)
+    (na nb : Bool) (op : Char) (m : Mode) (r : Value) (op' : Char) (m' : Mode) (ae : Bool) (t : SymTab)
+    (hx : t.get? x = some (.expr (.numeric a ha ma na) (.numeric b hb mb nb) op m false))
+    {z : Int} (hz : modelArith op (sInt a na) (sInt b nb) = some z) (h1 : -32768 ≤ z) (h2 : z ≤ 65535) :
+    (Value.expr (.symbol x mx) r op' m' ae).resolve t =
+      (Value.expr (if z < 0 then negNum (resMode ma mb z) z.natAbs else posNum (resMode ma mb z) z.natAbs) r op' m' ae).resolve t := by
+  cases t with
+  | nil => cases hx
+  | cons e t' =>
+    refine resolve_expr_symbol_left_expr x mx _ _ r op' m' ae _ hx rfl ?_ ?_
+    · rw [List.length_cons, resolveF_expr_numeric, hz]
+      simp only [numResult_spec, h1, h2, and_self, if_true]
+    · split <;> rfl
+
+/-- a chain of EQU expressions is followed: `A EQU B+1`, `B EQU C*2`, `C EQU 5`: `A` = 11, `A+B` = 21; the symbol table
+lists the three values -/
+theorem C04_equ_expression_chain (fs : Files) :
+    ∃ a, assemble fs ["A EQU B+1\n".toList, "B EQU C*2\n".toList, "C EQU 5\n".toList, " LDX #A\n".toList,
+        " LDA #A+B\n".toList] = .ok a ∧
+      a.image = some [0x8E, 0x00, 0x0B, 0x86, 0x15] ∧
+      symtabLines a.symtab = some ["$000B A".toList, "$000A B".toList, "$0005 C".toList] := by
+  obtain ⟨a, ha, hc⟩ := progCheck_sound
+    (check := fun a => a.image == some [0x8E, 0x00, 0x0B, 0x86, 0x15] &&
+      symtabLines a.symtab == some ["$000B A".toList, "$000A B".toList, "$0005 C".toList])
+    (lines := ["A EQU B+1\n".toList, "B EQU C*2\n".toList, "C EQU 5\n".toList, " LDX #A\n".toList,
+      " LDA #A+B\n".toList]) (by decide +kernel) fs
+  simp only [Bool.and_eq_true, beq_iff_eq] at hc
+  exact ⟨a, ha, hc.1, hc.2⟩
+
+/-- a definition CYCLE (`A EQU B+1`, `B EQU A+1`; Python's RecursionError, the fuel of `resolveF` running out) is a
+diagnostic, whether the symbol is used (`LDX #A`) or not (`evalSyms` evaluates every EQU expression); so is an EQU
+expression that divides by zero -/
+theorem C04_equ_expression_cycle (fs : Files) :
+    assemble fs ["A EQU B+1\n".toList, "B EQU A+1\n".toList, " LDX #A\n".toList] = .diag ∧
+    assemble fs ["A EQU A+1\n".toList, " NOP\n".toList] = .diag ∧
+    assemble fs ["A EQU 7/0\n".toList, " NOP\n".toList] = .diag :=
+  ⟨progDiag_sound (by decide +kernel) fs, progDiag_sound (by decide +kernel) fs, progDiag_sound (by decide +kernel) fs⟩
+
+/-- the cycle at the level of `resolve`: fuel `t.length + 1` = 3 runs out -/
+theorem C04_equ_expression_cycle_resolve :
+    (Value.symbol ['A'] .none).resolve
+      [(['A'], .expr (.symbol ['B'] .none) (.numeric 1 (some 2) .direct false) '+' .extended false),
+       (['B'], .expr (.symbol ['A'] .none) (.numeric 1 (some 2) .direct false) '+' .extended false)] =
+      .error .other := rfl
+
+/-- **a definition that needs itself never has a value**, in general: if the EQU expression of `x` names `x` as an
+operand (on either side), `x` is an error wherever it is used, whatever else the table holds (Python: RecursionError) -/
+theorem resolve_symbol_self_reference (x : Str) (mx mx' : Mode) (o : Value) (op : Char) (m : Mode) (t : SymTab)
+    (hx : t.get? x = some (.expr (.symbol x mx') o op m false) ∨ t.get? x = some (.expr o (.symbol x mx') op m false)) :
+    (Value.symbol x mx).resolve t = .error .other := by
+  have key : ∀ e, t.get? x = some e → e.isExpression = true →
+      (∀ n, resolveStep (getSymF n (t.without x)) e = .error .other) →
+      (Value.symbol x mx).resolve t = .error .other := by
+    intro e he hexp hstep
+    rw [resolve_symbol_of_expr he hexp]
+    cases hr : resolveF t.length e t with
+    | error err => rw [resolveF_isExpression_error hexp hr]
+    | ok s =>
+      have h1 := resolveF_to_without t x e he hexp _ _ hr
+      cases hn : t.length with
+      | zero => rw [hn] at h1; cases h1
+      | succ n => rw [hn, resolveF_succ, hstep n] at h1; cases h1
+  have hnone : ∀ n, getSymF n (t.without x) x = .error .other := fun n =>
+    getSymF_none (by rw [SymTab.get?_without]; simp)
+  rcases hx with hx | hx
+  · refine key _ hx rfl (fun n => ?_)
+    simp only [resolveStep, lookStep_symbol, hnone]
+  · refine key _ hx rfl (fun n => ?_)
+    simp only [resolveStep, lookStep_symbol, hnone]
+    split <;> simp_all
+
+/-- REPAIRED (fix 4e31349): a symbol may contain `_` (and `@`, also as an operand of an expression): `MY_SYM EQU 5`,
+`LDA #MY_SYM` is `86 05`, `LDA #MY_SYM+1` is `86 06`, the label `A_B` is an address; `X@ EQU 2`, `X@+1` = `1+X@` = 3 -/
+theorem C04_symbol_characters_fixed (fs : Files) :
+    (∃ a, assemble fs ["MY_SYM EQU 5\n".toList, " LDA #MY_SYM\n".toList, " LDA #MY_SYM+1\n".toList, "A_B NOP\n".toList,
+        " LDX #A_B\n".toList] = .ok a ∧ a.image = some [0x86, 0x05, 0x86, 0x06, 0x12, 0x8E, 0x00, 0x04]) ∧
+    (∃ a, assemble fs ["X@ EQU 2\n".toList, " LDA #X@+1\n".toList, " LDA #1+X@\n".toList] = .ok a ∧
+      a.image = some [0x86, 0x03, 0x86, 0x03]) :=
+  ⟨image_of _ _ (by decide +kernel) fs, image_of _ _ (by decide +kernel) fs⟩
+
+/-- an EQU of a LABEL expression (fix d7356d4): `L NOP`, `E EQU L+1` — the symbol table lists `E` as the address of `L`
+plus one -/
+theorem C04_equ_label_expression_symtab (fs : Files) :
+    ∃ a, assemble fs ["L NOP\n".toList, "E EQU L+1\n".toList, " NOP\n".toList] = .ok a ∧
+      symtabLines a.symtab = some ["$00   L".toList, "$0001 E".toList] := by
+  obtain ⟨a, ha, hc⟩ := progCheck_sound
+    (check := fun a => symtabLines a.symtab == some ["$00   L".toList, "$0001 E".toList])
+    (lines := ["L NOP\n".toList, "E EQU L+1\n".toList, " NOP\n".toList]) (by decide +kernel) fs
+  exact ⟨a, ha, by simpa using hc⟩
 
 /-- REPAIRED (batch B3, C3; formerly `C04_finding_label_index_offset`: a diagnostic): a label as a constant (non-PCR)
 index offset is assembled in the 16-bit offset form, the label's ADDRESS being the offset: `L` at 0, `LDA L,X` is
@@ -940,5 +1088,11 @@ open CoCo.Props
 #print axioms C04_negative_equ_word
 #print axioms addrOffset_add_negative
 #print axioms resolve_add_leaves_direct_page
-#print axioms C04_finding_equ_expression
+#print axioms C04_finding_equ_expression_fixed
+#print axioms C04_equ_expression_fixed
+#print axioms resolve_symbol_equ_expression
+#print axioms C04_equ_expression_cycle
+#print axioms C04_equ_expression_cycle_resolve
+#print axioms resolve_symbol_self_reference
+#print axioms C04_symbol_characters_fixed
 end axioms
